@@ -26,7 +26,7 @@ def run(c):
     progs = os.path.join(d, "hosts.jsonl")
     n = 1 if c.quick else 15
     with open(progs, "w") as f:
-        for kind, count, *extra in [("typed", 150 * n, 3), ("perturb", 100 * n), ("alias", 50 * n), ("corpus", 0)]:
+        for kind, count, *extra in [("typed", 150 * n, 3), ("perturb", 100 * n), ("alias", 50 * n), ("groups", 80 * n), ("corpus", 0)]:
             f.write(vf.gv(["gen-programs", kind, c.seed, count] + list(extra)).stdout)
     tr, summ = os.path.join(d, "trace.ndjson"), os.path.join(d, "summary.json")
     vf.gv(["record-ctx", st["out"], tr, summ, 40 if c.quick else 10, progs], timeout=3000)
@@ -43,6 +43,25 @@ def run(c):
     c.cov["contexts"] = s
     c.cov["inconclusive"] += s["crashes"]
     c.cov["replayed_cases"] += s["events"]
+    # unify on unrelated terms (failure part-way below binders): the caller's definitions context must come back unchanged
+    from checks import c12
+    up = os.path.join(d, "mismatch.out")
+    with open(up, "w") as f:
+        for skel, total in ((0, 4 if c.quick else 5), (1, 6 if c.quick else 7)):
+            stp = vf.tlc_generate("MC_Punch", c12.cfg(total, skel), "punch-%d-%d" % (skel, total), timeout=6000, workers=14)
+            c.add_tlc(stp, "unrelated pairs (one subterm replaced by another constant); generation")
+            f.writelines(l for l in open(stp["out"]) if 'mismatch' in l)
+    utr, usum = os.path.join(d, "unify-trace.ndjson"), os.path.join(d, "unify-summary.json")
+    vf.gv(["record-unify", up, utr, usum], timeout=3000)
+    us = json.load(open(usum))
+    c.cov["unify_on_unrelated_terms"] = {k: us[k] for k in us if k != "crashed"}
+    c.cov["replayed_cases"] += us["calls"]
+    tvu = vf.validate_trace("Trace_Unify", utr, "c18-unify", chunk_events=700, par=10)
+    c.add_trace(tvu, "Trace_Unify (context restored after unify)")
+    for rj in tvu["rejects"]:
+        if '"C18"' in rj["what"]:
+            ev = rj["event"] or {}
+            c.violate("unify event rejected: " + rj["what"][:220], {"kind": "trace-unify-context", "what": rj["what"][:300], "a": ev.get("a"), "b": ev.get("b")})
     tv = vf.validate_trace("Trace_Context", tr, "c18", chunk_events=500, par=10)
     c.add_trace(tv, "Trace_Context")
     lines = open(tr).read().splitlines()
